@@ -5,7 +5,7 @@ import tlc
 import cache
 import lexmodel
 
-INVS = ["WellFormed", "DepthMatches", "DepthBack", "LinesConserved", "FuncLinesExact", "GlobalLines", "NamesMatch"]
+INVS = ["WellFormed", "DepthMatches", "DepthBack", "LinesConserved", "FuncLinesExact", "GlobalLines", "NamesMatch", "ExportInv"]
 BOUNDS = {"quick": (12, 3), "thorough": (17, 4)}
 
 
@@ -14,28 +14,126 @@ def cached(tier):
     k = cache.key("enginemc", maxev, maxopen)
     c = cache.get(k)
     if c is not None:
-        return [lexmodel.Stat(s) for s in c["stats"]], [], True
+        return [lexmodel.Stat(s) for s in c["stats"]], c.get("exports", []), True
     cfg = tlc.cfg_text(spec="ESpec", constants=[f"MaxEvents = {maxev}", f"MaxOpen = {maxopen}"], invariants=INVS, extra="VIEW EView")
     r = tlc.run(name=f"enginemc-{maxev}-{maxopen}", root="EngineMC", defs={}, cfg=cfg, workers=8, timeout=3000, heap="8g")
     stats = [dict(distinct=r.distinct, generated=r.generated, wall=r.wall, ok=r.ok, violated=r.violated, error=r.error,
                   stdout_path=r.stdout_path)]
-    if r.ok:
-        cache.put(k, dict(stats=stats))
-    return [lexmodel.Stat(s) for s in stats], [], False
+    exports = r.exports
+    # the exhaustive run exports one behaviour per distinct VIEW state; random behaviours add variety of paths (fixed seeds: the
+    # universe does not depend on VERIF_SEED)
+    nsim = 4000 if tier == "quick" else 40000
+    rs = tlc.run_many([dict(name=f"enginemc-sim-{j}", root="EngineMC", defs={}, cfg=cfg.replace("VIEW EView", ""), workers=1, timeout=1800,
+                            simulate=f"num={nsim // 8}", depth=maxev + 1, seed=1000 + j) for j in range(8)])
+    for x in rs:
+        exports = exports + x.exports
+        stats.append(dict(distinct=x.distinct, generated=x.generated, wall=x.wall, ok=x.ok, violated=x.violated, error=x.error,
+                          stdout_path=x.stdout_path))
+    if r.ok and all(x.ok for x in rs):
+        cache.put(k, dict(stats=stats, exports=exports))
+    return [lexmodel.Stat(s) for s in stats], exports, False
 
 
-def run_into(R, tier):
+def run_into(R, tier, replay=False):
     try:
-        stats, _, was_cached = cached(tier)
+        stats, exports, was_cached = cached(tier)
     except Exception as e:  # noqa
         R.machinery(f"TLC EngineMC: {e}")
         return
     maxev, maxopen = BOUNDS[tier]
     R.add_tlc(f"EngineMC/MaxEvents={maxev}/MaxOpen={maxopen}", stats, cached=was_cached)
-    b = stats[0]
+    bad = [x for x in stats if not x.ok]
+    b = bad[0] if bad else stats[0]
     if not b.ok:
         if b.violated:
             R.violation(dict(kind="tlc_invariant", module="EngineMC", invariant=b.violated, detail=(b.error or "")[:3000],
                              note="the engine design (Engine.tla, bound to the code by EngineTrace.tla) breaks an invariant"))
         else:
             R.machinery(f"TLC EngineMC: {b.error}")
+    if replay:
+        replay_behaviours(R, exports)
+
+
+# ------------------------------------------------------------------------------------------------ direction A
+STRUCT = {"IsFuncDeclaration", "IsBlockStart", "IsBlockEnd", "IsControlStatement", "IsUserDefinedType", "IsEmptyLine", "IsComment",
+          "IsPreprocessorStatement"}
+
+
+def concretise(log):
+    """event sequence of EngineMC -> C text, one statement per event (indentation follows the model's chain)"""
+    out = []
+    depth = 0
+    nfun = 0
+    intype = False
+    for i, e in enumerate(log):
+        r, nl = e["rule"], e["nl"]
+        before = len(log[i - 1]["names"]) - 1 if i else 0
+        tabs = "\t" * before
+        if r == "IsEmptyLine":
+            t = "\n"
+        elif r == "IsComment":
+            t = tabs + "/* c */\n"
+        elif r == "IsPreprocessorStatement":
+            t = "#define X%d 1\n" % i
+        elif r == "IsFuncDeclaration":
+            nfun += 1
+            t = "int\tf%d(void)\n" % nfun
+        elif r == "IsUserDefinedType":
+            intype = True
+            t = ("enum e_x%d\n" if e["isEnum"] else "struct s_x%d\n") % i
+        elif r == "IsBlockStart":
+            t = "\t" * max(before - 1, 0) + "{\n"
+        elif r == "IsBlockEnd":
+            closing_type = log[i - 1]["names"][-1] in ("UserDefinedType", "UserDefinedEnum")
+            t = "\t" * max(before - 1, 0) + ("};\n" if closing_type else "}\n")
+            if closing_type:
+                intype = False
+        elif r == "IsControlStatement":
+            t = tabs + "while (x)\n"
+        elif r == "IsVarDeclaration":
+            enum = log[i - 1]["names"][-1] == "UserDefinedEnum"
+            t = tabs + ("A%d,\n" % i if enum else "int\ta%d;\n" % i)
+        else:
+            t = tabs + ("x = 1;\n" if nl == 1 else "x = f(1,\n" + tabs + "\t\t2);\n")
+        out.append(t)
+    return "".join(out)
+
+
+def _replay_one(rec):
+    import observe
+    log = rec["log"]
+    text = concretise(log)
+    o = observe.engine_trace(text, "engine.c")
+    evs = [e for e in o["events"]]
+    if o["exc"] or o["fatal"] or len(evs) != len(log):
+        return dict(ok=False, why=f"exc={o['exc']} fatal={o['fatal']} events {len(evs)} != {len(log)}", text=text,
+                    rules=[e["rule"] for e in evs])
+    for i, (m, e) in enumerate(zip(log, evs), start=1):
+        mr = m["rule"] if m["rule"] in STRUCT else "OTHER"
+        er = e["rule"] if e["rule"] in STRUCT else "OTHER"
+        names = [c["name"] for c in e["after"]]
+        multi = [c["multi"] for c in e["after"]]
+        if mr != er or names != list(m["names"]) or multi != list(m["multi"]) or e["nl"] != m["nl"] or e["lines"] != list(m["lines"])[-1]:
+            return dict(ok=False, why=f"event {i}: model {mr} nl={m['nl']} {list(m['names'])} {list(m['multi'])} / code {e['rule']} nl={e['nl']} {names} {multi} lines={e['lines']} (model lines {list(m['lines'])})",
+                        text=text, event=i)
+    return dict(ok=True)
+
+
+def replay_behaviours(R, exports):
+    import driverprops
+    seen = set()
+    recs = []
+    for rec in exports:
+        key = tuple((e["rule"], e["nl"], e["isEnum"]) for e in rec["log"])
+        if key not in seen:
+            seen.add(key)
+            recs.append(rec)
+    for rec, w in zip(recs, driverprops.pool_map_shared(_replay_one, recs)):
+        R.case(("engine-behaviour", tuple((e["rule"], e["nl"]) for e in rec["log"])))
+        if w["ok"]:
+            R.validated()
+        else:
+            R.violation(dict(kind="engine_behaviour", why=w["why"], text=w.get("text"), event=w.get("event"),
+                             note="a behaviour of EngineMC.tla replayed into Registry.run: the scope chain after some statement is not the "
+                                  "model's (names, multi-line flags, line breaks consumed)"))
+    R.cov["engine_behaviours_replayed"] = len(recs)
